@@ -98,7 +98,11 @@ static void one_call(void) {
                    r = fn == 12 ? polygonToCells(&g_poly, pr, fl, o) : polygonToCellsExperimental(&g_poly, pr, fl, n, o); g_guard = gb_ok(o); if (!r) prod_arr(o, n); gb_free(o);
                  }
             X(",\"res\":%d,\"flags\":%d", pr, (int)(fl > 0x7fffffffu ? -1 : (int)fl)); break; }
-        case 15: { F("other"); int n = 1 + (int)vt_randn(12); H3Index set[12]; int kk = (int)vt_randn(2); H3Index d[7] = {0}; if (isValidCell(h)) gridDisk(h, kk, d); for (int i = 0; i < n; i++) set[i] = vt_randn(4) && d[i % 7] ? d[i % 7] : any_word();
+        case 15: { F("other"); H3Index set[40]; int n = 0;
+            if (vt_randn(2)) { n = 1 + (int)vt_randn(12); int kk = (int)vt_randn(2); H3Index d[7] = {0}; if (isValidCell(h)) gridDisk(h, kk, d); for (int i = 0; i < n; i++) set[i] = vt_randn(4) && d[i % 7] ? d[i % 7] : any_word(); }
+            else { /* a disk with several separate holes (many more inner loops than outer ones), now and then a stray word */
+                int kk = 2 + (int)vt_randn(2); H3Index d[37] = {0}; int dist[37]; if (isValidCell(h) && !gridDiskDistances(h, kk, d, dist)) { for (int i = 0; i < (kk == 2 ? 19 : 37); i++) if (d[i] && (dist[i] == kk || vt_randn(5))) set[n++] = d[i]; }
+                if (n == 0) set[n++] = any_word(); else if (vt_randn(8) == 0) set[vt_randn(n)] = any_word(); }
             LinkedGeoPolygon lp; memset(&lp, 0, sizeof lp); r = cellsToLinkedMultiPolygon(set, n, &lp); if (!r) destroyLinkedMultiPolygon(&lp); break; }
         case 16: { F("other"); volatile double x = degsToRads(any_dbl(0)) + radsToDegs(any_dbl(0)); (void)x; LatLng a = {any_dbl(1), any_dbl(0)}, b = {any_dbl(1), any_dbl(0)}; x = greatCircleDistanceRads(&a, &b) + greatCircleDistanceKm(&a, &b) + greatCircleDistanceM(&a, &b); break; }
         case 17: case 18: case 19: case 20: case 21: { static const char *nm[] = {"getHexagonAreaAvgKm2", "getHexagonAreaAvgM2", "getHexagonEdgeLengthAvgKm", "getHexagonEdgeLengthAvgM", "getNumCells"};
